@@ -37,22 +37,26 @@ Proof. vm_compute. reflexivity. Qed.
 Lemma gen_place_with_padding : cd_place_with_padding gen_codec = true.
 Proof. vm_compute. reflexivity. Qed.
 
-(* nulless + furibug: after a furigana line, the text of a nulless furibug string reads back with the
-   furigana line's (masked) bytes attached: "b" becomes "b|a" *)
-Definition nullessfuri_params : list sparam := [PStr (SFixed 8 true) 0 0 0 true].
-Definition nullessfuri_witness : Prop :=
-  exists sig r1 st1 r2 st2,
-    abi_of_params gen_codec false nullessfuri_params = Some sig /\
-    encode_args (fun s => Some s) gen_codec false [EStr (SBlock 1) 0 0 0 true] [mkarg (AStr [124; 97]) false] None = Ok (r1, st1) /\
-    encode_args (fun s => Some s) gen_codec false sig [mkarg (AStr [98]) false] st1 = Ok (r2, st2) /\
-    r_warn r2 = [] /\
-    decode_call (fun b => Some b) gen_codec sig r2 = Ok ([mkarg (AStr [98; 124; 97]) false], []).
+(* 59b7189: a string parameter cannot be both nulless and furibug *)
+Lemma gen_nulless_furibug_rejected : cd_nulless_furibug_rejected gen_codec = true.
+Proof. vm_compute. reflexivity. Qed.
 
-Lemma nullessfuri_refuted : cd_nulless_furibug_rejected gen_codec = false -> nullessfuri_witness.
+(* every signature that the mapfile parser accepts (with at most as many parameters as the mask has bits, in a language
+   that has registers only if it has no timeline arg0) is one the round-trip theorems cover *)
+Lemma parsed_sig_ok : forall lang_arg0 ps sig has_regs,
+  abi_of_params gen_codec lang_arg0 ps = Some sig -> params_nonneg ps = true ->
+  nparams sig <= cd_mask_bits gen_codec -> (lang_arg0 = true -> has_regs = false) ->
+  sig_ok gen_codec has_regs sig = true.
 Proof.
-  intro E. first [ vm_compute in E; discriminate E
-                 | unfold nullessfuri_witness; do 5 eexists; split; [vm_compute; reflexivity|]; split; [vm_compute; reflexivity|];
-                   split; [vm_compute; reflexivity|]; split; vm_compute; reflexivity ].
+  intros lang_arg0 ps sig has_regs Habi Hnn Hnp Hlang.
+  unfold abi_of_params in Habi. destruct (encs_of_params gen_codec ps) as [sig'|] eqn:Ep; [|discriminate].
+  destruct (validate sig' && (negb (existsb is_arg0 (firstn 1 sig')) || lang_arg0)) eqn:Ev; [|discriminate].
+  injection Habi as <-. apply andb_true_iff in Ev. destruct Ev as [Hv Ha].
+  unfold sig_ok. rewrite Hv, (params_str_ok _ gen_bs_checked gen_nulless_furibug_rejected _ _ Hnn Ep). cbn [andb].
+  apply andb_true_iff. split; [now apply Z.leb_le|].
+  destruct (validate_facts _ Hv) as [Htl _].
+  destruct sig' as [|e sig1]; [reflexivity|]. cbn [existsb firstn tl] in *. rewrite Htl in *. rewrite orb_false_r in *.
+  destruct (is_arg0 e); [|reflexivity]. cbn [negb orb] in *. rewrite (Hlang Ha). reflexivity.
 Qed.
 
 Lemma accepted_call_never_panics_gen :
